@@ -11,7 +11,8 @@ PairOk(v, t1, t2) == \/ (t1 \in TypesOf(v) /\ t2 \in TypesOf(v))
                      \/ (v # "schema" /\ t1 \in NewPyd /\ t2 \in NewPyd \cup {"int"})
                      \/ (v # "schema" /\ t1 = "int" /\ t2 \in NewPyd)
 AllTypes(v) == IF v = "schema" THEN SchemaTypes ELSE PydTypes
-S(v, ps, ex, pa, vals, se) == [validator |-> v, vsrc |-> "fresh", sreq |-> FALSE, params |-> ps, extra |-> ex, passing |-> pa, vals |-> vals, setextra |-> se]
+S(v, ps, ex, pa, vals, se) == [validator |-> v, vsrc |-> "fresh", sreq |-> FALSE, params |-> ps, extra |-> ex, passing |-> pa, vals |-> vals, setextra |-> se, flavour |-> "func"]
+Vw(s) == [s EXCEPT !.flavour = "view"]
 P(t, d) == [type |-> t, dflt |-> d]
 InitV(V) ==
     \* two parameters, every type pair, last one with / without default, positional prefixes and named subsets
@@ -21,10 +22,16 @@ InitV(V) ==
              /\ (pa = "pos" => (a = "omit" => b = "omit"))
              /\ InitWith(S(v, <<P(t1, FALSE), P(t2, d2)>>, "none", pa, <<a, b>>, FALSE))
     \* one parameter + a context parameter / a parameter removed by the exclusion predicate; the client may try to set it
-    \/ \E v \in Validators : \E t1 \in AllTypes(v), d1 \in BOOLEAN, ex \in {"none", "ctx", "dep"}, pa \in {"pos", "named"}, se \in BOOLEAN :
+    \/ \E v \in Validators : \E t1 \in AllTypes(v), d1 \in BOOLEAN, ex \in {"none", "ctx", "dep", "dep_ann"}, pa \in {"pos", "named"}, se \in BOOLEAN :
           \E a \in V \cup {"omit"} :
              /\ (se => (pa = "named" /\ ex # "none"))
-             /\ InitWith(S(v, <<P(t1, d1)>>, ex, pa, <<a>>, se))
+             /\ (ex = "dep_ann" => v # "schema")            \* schema-validated methods carry no annotations at all
+             /\ (InitWith(S(v, <<P(t1, d1)>>, ex, pa, <<a>>, se)) \/ InitWith(Vw(S(v, <<P(t1, d1)>>, ex, pa, <<a>>, se))))
+    \* methods of class based views with two parameters
+    \/ \E v \in Validators : \E t1 \in {"int", "bool"}, t2 \in {"int", "intlist"}, d2 \in BOOLEAN, ex \in {"none", "dep_ann"}, pa \in {"pos", "named"} :
+          \E a \in V \cup {"omit"}, b \in {"i5", "a_12", "omit"} :
+             /\ (pa = "pos" => (a = "omit" => b = "omit")) /\ (ex = "dep_ann" => v # "schema")
+             /\ InitWith(Vw(S(v, <<P(t1, FALSE), P(t2, d2)>>, ex, pa, <<a, b>>, FALSE)))
 Sh(s, src) == [s EXCEPT !.vsrc = src]
 InitShared(V) ==
     \/ \E v \in Validators : \E t1 \in TypesOf(v), t2 \in TypesOf(v), pa \in {"pos", "named"} : \E a \in V, b \in V \cup {"omit"} :
